@@ -861,7 +861,29 @@ typedef struct parser {
     expr_t	       *prs_head;	/* expression list head */
     expr_t	       *prs_tail;	/* expression list tail */
     vnaproperty_t      *prs_collection;	/* if last elem is map/list */
+    vnaproperty_t      *prs_inserted_list; /* list of outermost [n+] / [+] */
+    int			prs_inserted_index; /* index of the inserted element */
 } parser_t;
+
+/*
+ * parser_undo_insert: remove the element inserted by a [n+] or [+] subscript
+ *   @parser: pointer to parser state structure
+ *
+ *   Called when a set operation fails after it has already inserted a
+ *   list element, so that the failed call leaves no new element behind
+ *   (and a retry doesn't insert a second one).  Preserves errno.
+ */
+static void parser_undo_insert(parser_t *parser)
+{
+    if (parser->prs_inserted_list != NULL) {
+	int saved_errno = errno;
+
+	(void)list_delete(parser->prs_inserted_list,
+		parser->prs_inserted_index);
+	parser->prs_inserted_list = NULL;
+	errno = saved_errno;
+    }
+}
 
 /*
  * expr_free: free scanner and parser resources
@@ -1329,6 +1351,10 @@ static vnaproperty_t **parse_and_descend(parser_t *parser,
 		if ((anchor = list_insert(node, exp->u.ex_index)) == NULL) {
 		    goto error;
 		}
+		if (parser->prs_inserted_list == NULL) {
+		    parser->prs_inserted_list = node;
+		    parser->prs_inserted_index = exp->u.ex_index;
+		}
 		node = *anchor;
 		continue;
 
@@ -1340,6 +1366,11 @@ static vnaproperty_t **parse_and_descend(parser_t *parser,
 		collection = node;
 		if ((anchor = list_append(node)) == NULL) {
 		    goto error;
+		}
+		if (parser->prs_inserted_list == NULL) {
+		    parser->prs_inserted_list = node;
+		    parser->prs_inserted_index =
+			((vnaproperty_list_t *)node)->vpl_length - 1;
 		}
 		node = *anchor;
 		continue;
@@ -1369,6 +1400,7 @@ static vnaproperty_t **parse_and_descend(parser_t *parser,
     return anchor;
 
 error:
+    parser_undo_insert(parser);
     parser_free(parser);
     return NULL;
 }
@@ -1653,6 +1685,9 @@ int vnaproperty_vset(vnaproperty_t **rootptr, const char *format, va_list ap)
     rv = 0;
 
 out:
+    if (rv == -1) {
+	parser_undo_insert(&parser);
+    }
     parser_free(&parser);
     return rv;
 }
@@ -1770,6 +1805,7 @@ vnaproperty_t **vnaproperty_vset_subtree(vnaproperty_t **rootptr,
     if (scanner->scn_token != T_EOF) {
 	errno = EINVAL;
 	anchor = NULL;
+	parser_undo_insert(&parser);
 	goto out;
     }
 
